@@ -1108,6 +1108,13 @@ class Interp:
             return v.n != 0
         if isinstance(v, SRec):
             return True
+        if isinstance(v, SOpaque) and v.kind == "float":
+            # bool(x) of a float: false exactly for the two zeros, +0.0 and -0.0 (two distinct bit patterns)
+            from . import opaque
+            b0, bn = opaque.literal("bytes", bytes(8)), opaque.literal("bytes", b"\x80" + bytes(7))
+            bits = opaque.f64bits(v.t)
+            self.ctx.assume(opaque.f64of(bits) == v.t)
+            return z3.Not(z3.Or(bits == b0, bits == bn))
         if isinstance(v, SOpaque):
             from . import opaque
             return opaque.truth(v)
